@@ -181,7 +181,9 @@ class Builder(object):
 
     def ordmap(self, name):
         from .ordmap import OrdMap
-        return OrdMap.symbolic(self.ctx, name)
+        om = OrdMap.symbolic(self.ctx, name)
+        self.ctx.symbols[name + ".table"] = _OrdMapReader(om.view())
+        return om
 
     def gcode_table(self):
         from .framework import GcodeTable
@@ -201,6 +203,38 @@ class Builder(object):
     def comm(self, streaming):
         from .framework import Comm
         return Comm(streaming)
+
+
+class _OrdMapReader(object):
+    """Pre-state contents of an ordered map (for counter-models / candidates): entries 0..min(n,3)-1."""
+
+    class _A(object):
+        pass
+
+    def __init__(self, view):
+        self.view = view
+        self.arrays = self._A()
+        self.arrays.n = view.n          # bounded to <= 3 by the model searches
+
+    def model_value(self, m):
+        v = self.view
+
+        def ev(t):
+            return m.eval(t, model_completion=True)
+        n = ev(v.n).as_long()
+        out = []
+        for i in range(max(0, min(n, 3))):
+            iv = z3.IntVal(i)
+            ent = {"key": model_value(ev(z3.Select(v.key, iv))), "is_map": z3.is_true(ev(z3.Select(v.is_map, iv))),
+                   "sval": model_value(ev(z3.Select(v.sval, iv))), "args": {}}
+            if ent["is_map"]:
+                for code in range(ord("A"), ord("Z") + 1):
+                    cv = z3.IntVal(code)
+                    if z3.is_true(ev(z3.Select(z3.Select(v.mhas, iv), cv))):
+                        none = z3.is_true(ev(z3.Select(z3.Select(v.mnone, iv), cv)))
+                        ent["args"][chr(code)] = None if none else model_value(ev(z3.Select(z3.Select(v.mval, iv), cv)))
+            out.append(ent)
+        return {"ordmap": out, "len": n}
 
 
 class _SeqModelReader(object):
@@ -451,8 +485,8 @@ def run_contract_paths(program, registry, con, active_cases=None, prefix=None, f
             except (Unsupported, PyExc, PathEnd):
                 raise
             except Exception as e:  # noqa -- the clause does not fit the shape of value this code produced
-                if type(e).__name__ == "NotPure":
-                    raise
+                if type(e).__name__ in ("NotPure", "FrontierReached", "PathDead", "PathEnd", "_Return", "_Break", "_Continue"):
+                    raise          # engine control flow, not a failure of the clause
                 raise Unsupported("contract clause %s cannot be evaluated on the values this code produces (%s: %s)"
                                   % (cl.name, type(e).__name__, str(e)[:120]))
             oname = "%s/%s" % (con.qualname, cl.name)
@@ -656,16 +690,26 @@ def solve_obligation(ob, symbols, timeout_ms=None):
         if r == z3.sat:
             vals = extract_model(s.model(), symbols)
             return Verdict(ob, "refuted", "z3-seq", time.time() - t0, model=vals)
-        rc = cvc5_check(smt2, max(timeout_ms * 2, 40000))
+        # quantified queries (array views of tables): cvc5 rarely decides them, z3 with a longer budget often finds the
+        # counter-model -- give cvc5 the big budget only when there is no quantifier
+        rc = cvc5_check(smt2, max(timeout_ms * 2, 40000) if not quant else 5000)
         if rc == "unsat":
             return Verdict(ob, "discharged", "cvc5", time.time() - t0)
+        r = _check(s, timeout_ms if rc == "sat" else timeout_ms // 2)
+        if r == z3.unsat:
+            return Verdict(ob, "discharged", "z3-seq", time.time() - t0)
+        if r == z3.sat:
+            vals = extract_model(s.model(), symbols)
+            fm = faithful_model(ob) if quant else None
+            return Verdict(ob, "refuted", "cvc5+z3-model" if rc == "sat" else "z3-seq", time.time() - t0,
+                           model=fm if fm is not None else vals)
         if rc == "sat":
-            # ask z3 for a model with a longer budget so that the counter-example can be replayed
-            r = _check(s, timeout_ms)
-            if r == z3.sat:
-                return Verdict(ob, "refuted", "cvc5+z3-model", time.time() - t0, model=extract_model(s.model(), symbols))
             return Verdict(ob, "candidate", "cvc5", time.time() - t0, model={}, reason="cvc5 reports sat; no model extracted")
-        return Verdict(ob, "unknown", "z3+cvc5", time.time() - t0, reason="string query undecided by z3 (1.5 s) and cvc5")
+        cand = find_candidate(ob, symbols, min(timeout_ms // 4, 5000)) if quant else None
+        if cand is not None:
+            return Verdict(ob, "candidate", "z3-weakened", time.time() - t0, model=cand,
+                           reason="string query undecided by z3 and cvc5; weakened query has a model")
+        return Verdict(ob, "unknown", "z3+cvc5", time.time() - t0, reason="string query undecided by z3 and cvc5")
     if not has_quantifier(neg):
         # try the nonlinear-real tactic first on the quantifier-free part of the hypotheses (dropping hypotheses is
         # sound for a proof; a `sat` answer is only trusted when nothing was dropped), then the default solver
